@@ -172,7 +172,7 @@ def scenario(versions: list[dict[str, str]], store_flags: list[str], n_workers: 
                 metas = [e for e in lst if e["op"] == "write" and e["rec"] in ("meta", "meta_ex")]
                 pairs = [(a, b) for a in datas for b in metas if (a["name"] or "").split(".")[0] != (b["name"] or "").split(".")[0]]
                 rng.shuffle(pairs)
-                for a, b in pairs[:8]:
+                for a, b in pairs[:12]:
                     plans.append({"kind": "fail", "role": role, "set": sorted([a["n"], b["n"]]), "pair": "data+" + b["rec"]})
         if len(plans) > max_points:
             # stratified: first and last instance of every (role, kind, op, record kind, when) class, then random fill
